@@ -197,7 +197,7 @@ def finding_matches(f, t):
             good[x["s"]] += 1          # the ante handler advances the sequence once per message, up front
         bad = dict(good)
         for i, x in enumerate(ts):     # then every successful creation overwrites it with its own nonce + 1
-            if x["to"] == "new" and not o["vmfails"][i]:
+            if x["to"] in ("new", "newp") and not o["vmfails"][i]:
                 bad[x["s"]] = int(x["nonce"]) + 1
         return post["nonce"] == bad and bad != good
     if not tx or not o or not pre:
